@@ -301,7 +301,7 @@ def amodel():
 VALUES = {'ordinary': dict(qty=5, flag=True, note='text', ratio=1.5, name='nm'), 'boundary': dict(qty=0, flag=False, note='', ratio=0.0, name=''),
           'missing': dict(qty=None, flag=None, note='', ratio=None, name=None)}
 FOREIGN = dict(qty=7, flag=1, note='changed', ratio=2.5, name='other')                      # what somebody else commits meanwhile
-HOW_KNOWN = ('loaded by key', 'loaded by a query', 'created, read, then flushed', 'created, read, then flushed by a query', 'modified, read, then flushed', 'created and flushed', 'created, flushed by a query', 'created and committed', 'modified and flushed', 'loaded then read through to_dict')
+HOW_KNOWN = ('loaded by key', 'loaded by a query', 'loaded, read, then another attribute saved', 'loaded, read, then another attribute saved and committed', 'created, read, then flushed', 'created, read, then flushed by a query', 'modified, read, then flushed', 'created and flushed', 'created, flushed by a query', 'created and committed', 'modified and flushed', 'loaded then read through to_dict')
 REREAD = ('attribute again', 'after the row is selected again', 'after load()', 'after a query that returns the object')
 
 
@@ -327,6 +327,12 @@ def _av_case(cfg, values):
         with orm.db_session:
             if known == 'loaded by key': o = T[1]
             elif known == 'loaded by a query': o = T.select(lambda t: t.id == 1).first()
+            elif known.startswith('loaded, read, then another attribute saved'):
+                o = T[1]; early = getattr(o, attr)
+                other = 'qty' if attr != 'qty' else 'ratio'
+                setattr(o, other, 41 if other == 'qty' else 4.5)                        # the session's own UPDATE of ANOTHER attribute must not make it forget what it has seen
+                if known.endswith('committed'): orm.commit()
+                else: orm.flush()
             elif known == 'created, read, then flushed': o = T(id=1, vol=1, **vals); early = getattr(o, attr); orm.flush()
             elif known == 'created, read, then flushed by a query': o = T(id=1, vol=1, **vals); early = getattr(o, attr); T.select().count()
             elif known == 'modified, read, then flushed':
@@ -378,5 +384,5 @@ CONTRACTS = [
     Contract('observed_attribute', ['pony.orm.core:Attribute.__get__', 'pony.orm.core:Entity._db_set_', 'pony.orm.core:Entity._update_dbvals_', 'pony.orm.core:Entity._save_created_',
                                     'pony.orm.core:Entity._save_updated_', 'pony.orm.core:Entity.load', 'pony.orm.core:Attribute.load'], _av_configs, _av_case,
              [('a_later_read_returns_the_observed_value_or_fails', _av_spec)], level='bounded',
-             bound='5 attribute types x ordinary / boundary (0, False, empty) / missing values x 10 ways the object became known (loaded, created, modified; flushed, committed) x 4 ways of reading again after a foreign change'),
+             bound='5 attribute types x ordinary / boundary (0, False, empty) / missing values x 12 ways the object became known (loaded, created, modified; flushed, committed) x 4 ways of reading again after a foreign change'),
 ]
